@@ -277,7 +277,9 @@ func checkC19(c *core.Ctx) {
 	r9 := c.Rule("R19.9", "D", "slices indexed by a caller-supplied signed layer type in decode-reachable code are guarded on both sides, strictly (= R5.5)")
 	{
 		reach := c.P.Roots().DecReach
-		signedIndexRule(c, r9, func(fn *ssa.Function) bool { return reach[fn] && core.FnPkg(fn) != nil && core.FnPkg(fn).Path() == core.Mod })
+		signedIndexRule(c, r9, func(fn *ssa.Function) bool {
+			return reach[fn] && core.FnPkg(fn) != nil && core.FnPkg(fn).Path() == core.Mod
+		})
 	}
 	r10 := c.Rule("R19.10", "D", "DecodeFromBytes reads no integer/bool field of its receiver before storing it in the same call: a stale value from an earlier packet is not covered by this call's length checks (= R5.9)")
 	staleFieldReads(c, r10)
